@@ -81,8 +81,10 @@ def generate(seed, prop):
             stem = "f%d_%s" % (i, rng.choice(["a", "b", "c"]))
         elif style < 0.85:
             stem = "UT.STN%d.%s" % (i, rng.choice(["a2", "c50"]))      # dots inside the name; common prefix
-        else:
+        elif style < 0.93:
             stem = "rec %d-%s" % (i, rng.choice(["x", "y"]))            # a space and a dash
+        else:
+            stem = "STN%d[%d]" % (i, rng.choice([1, 2]))                # a 'second copy' name: brackets are legal in file names
         files.append({"stem": stem, "rate": rate,
                       "n": int(rate * dur) + 1, "k": rng.randrange(1 << 30)})
         if rng.random() < 0.3:
